@@ -50,15 +50,18 @@ class _SQLLineageConfigLoader:
             super().__setattr__(key, value)
 
     def __call__(self, *args, **kwargs):
+        # validate before storing anything so that a rejected call leaves no trace behind
+        if self.get_ident() in self._thread_in_context_manager:
+            raise ConfigException("SQLLineageConfig context manager is not reentrant")
+        for key in kwargs:
+            if key not in self.config.keys():
+                raise ConfigException(f"Invalid config key: {key}")
         if self.get_ident() not in self._thread_config.keys():
             self._thread_config[self.get_ident()] = {}
         for key, value in kwargs.items():
-            if key in self.config.keys():
-                self._thread_config[self.get_ident()][key] = self.parse_value(
-                    value, self.config[key][0]
-                )
-            else:
-                raise ConfigException(f"Invalid config key: {key}")
+            self._thread_config[self.get_ident()][key] = self.parse_value(
+                value, self.config[key][0]
+            )
         return self
 
     def __enter__(self):
